@@ -323,6 +323,98 @@ def gen_dens(ctx, count):
     return cases
 
 
+def gen_hist(ctx, count):
+    """query -> m[i] = value -> query [-> m[j] = value -> query] on an array message"""
+    rng = ctx.rng
+    cases = []
+    for k in range(count):
+        fam = rng.choice(["normal", "natural", "gamma", "beta"])
+        n = rng.randint(2, 4)
+        msg = gen_message(rng, fam, False, n, 6000)
+        steps = []
+        for _ in range(rng.choice([1, 2, 2, 3])):
+            i = rng.randrange(n)
+            if steps and rng.random() < 0.3:
+                i = steps[-1][0]                     # overwrite the same entry again
+            steps.append([i, gen_message(rng, fam, True, 1, 6100 + len(steps))])
+        if fam in ("normal", "natural"):
+            x = [anyreal(rng) for _ in range(n)]
+        elif fam == "gamma":
+            x = [pos(rng) for _ in range(n)]
+        else:
+            x = [rng.uniform(0.05, 0.95) for _ in range(n)]
+        cases.append({"kind": "hist", "fam": fam, "n": n, "msg": msg, "steps": steps, "x": [hx(v) for v in x]})
+    return cases
+
+
+def expected_elems(c, upto):
+    params = [list(p) for p in c["msg"]["params"]]
+    for i, v in c["steps"][:upto]:
+        for k in range(len(params)):
+            params[k][i] = v["params"][k][0]
+    return params
+
+
+def same_hex(a, b):
+    if isinstance(a, str) or isinstance(b, str):
+        return a == b
+    if len(a) != len(b):
+        return False
+    for x, y in zip(a, b):
+        if isinstance(x, bool) or isinstance(y, bool):
+            if x != y:
+                return False
+        else:
+            fx, fy = unhex(x), unhex(y)
+            if not ((math.isnan(fx) and math.isnan(fy)) or (fx == fy and math.copysign(1, fx) == math.copysign(1, fy))):
+                return False
+    return True
+
+
+def oracle_hist(c, res):
+    """after every step every query on the mutated message equals the query on a fresh message built from the
+    current parameters, the parameters are the pointwise replacement, and meta data never change"""
+    out = []
+    st = res["stages"]
+    if len(st) != len(c["steps"]) + 1:
+        return [("hist-shape", "driver returned %d stages" % len(st))]
+    for k, s in enumerate(st):
+        exp = expected_elems(c, k)
+        if not all(same_hex(p, e) for p, e in zip(s["live"]["parameters"], exp)) or len(s["live"]["parameters"]) != len(exp):
+            out.append(("setitem-params", "after %d assignments the parameters are %r, expected %r" % (k, s["live"]["parameters"], exp)))
+        for q in sorted(s["fresh"]):
+            if q not in s["live"] or not same_hex(s["live"][q], s["fresh"][q]):
+                out.append(("stale-" + q, "after %d in-place assignments %s of the message is %r but a fresh message with the same "
+                            "parameters gives %r" % (k, q, s["live"].get(q), s["fresh"][q])))
+            if q in s["again"] and not same_hex(s["again"][q], s["live"].get(q)):
+                out.append(("unstable-" + q, "two reads of %s on the same state differ" % q))
+        if s["meta"] != st[0]["meta"]:
+            out.append(("setitem-meta", "id/limits/log_norm/shape changed by item assignment: %r -> %r" % (st[0]["meta"], s["meta"])))
+    return out
+
+
+def coq_hist(c, res):
+    n = c["n"]
+    def rows(params):   # list per parameter -> list per element
+        return clist([clist([cf(params[k][i]) for k in range(len(params))]) for i in range(n)])
+    obs = []
+    for s in res["stages"]:
+        L = s["live"]
+        nat = L.get("natural_parameters")
+        if not isinstance(nat, list) or len(nat) != 2 * n:
+            return None
+        natp = [nat[:n], nat[n:]]
+        mean, var = L.get("mean"), L.get("variance")
+        if c["fam"] == "natural" or not isinstance(mean, list) or not isinstance(var, list) or len(mean) != n or len(var) != n:
+            mv = clist([cpair(cf("nan"), cf("nan")) for _ in range(n)])
+        else:
+            mv = clist([cpair(cf(a), cf(b)) for a, b in zip(mean, var)])
+        obs.append("(%s, %s, %s)" % (rows(L["parameters"]), rows(natp), mv))
+    e0 = rows(c["msg"]["params"])
+    steps = clist(["(%d%%nat, %s)" % (i, clist([cf(v["params"][k][0]) for k in range(len(v["params"]))])) for i, v in c["steps"]])
+    return "CHist %s %s %s %s" % (CFAM[c["fam"]], e0, steps, clist(obs))
+
+
 def gen_det(ctx, count):
     rng = ctx.rng
     cases = []
@@ -925,7 +1017,8 @@ def run(ctx):
         "prior) with ids, limits and log_norm, plus the abstract expressions of one algebraic law or a random expression tree; "
         "(proj) samples and log-weights projected by cls.project / TransformedMessage.project; (dens) a message whose reported "
         "density is integrated numerically; (det) points at which _transform_det / factor of a transformed message are compared "
-        "bit for bit with the model. A case is non-trivial unless it is the a**1 law on a fixed message or a projection "
+        "bit for bit with the model; (hist) query -> m[i] = value -> query [-> ...] histories on array messages, every query compared "
+        "bit for bit with a fresh message built from the current parameters and with the model. A case is non-trivial unless it is the a**1 law on a fixed message or a projection "
         "of fewer than 3 samples; distinct = distinct abstract input")
     ctx.trusted = [
         "Coq 8.16.1 kernel incl. vm_compute; primitive floats are kernel primitives; Reals axioms of the standard library",
@@ -952,8 +1045,8 @@ def run(ctx):
     except (OSError, IndexError):
         pass
     built = ctx.build()
-    n_alg, n_proj, n_dens, n_det = (420, 150, 60, 80) if not thorough else (2600, 900, 320, 500)
-    cases = gen_alg(ctx, n_alg) + gen_proj(ctx, n_proj) + gen_dens(ctx, n_dens) + gen_det(ctx, n_det)
+    n_alg, n_proj, n_dens, n_det, n_hist = (420, 150, 60, 80, 120) if not thorough else (2600, 900, 320, 500, 800)
+    cases = gen_alg(ctx, n_alg) + gen_proj(ctx, n_proj) + gen_dens(ctx, n_dens) + gen_det(ctx, n_det) + gen_hist(ctx, n_hist)
     corpus_dir = os.path.join(common.VERIF, "corpus", "C17")
     if os.path.isdir(corpus_dir):
         for f in sorted(os.listdir(corpus_dir)):
@@ -1003,6 +1096,14 @@ def run(ctx):
             if t:
                 coq_terms.append(t)
                 coq_idx.append(i)
+        elif kind == "hist":
+            fails += oracle_hist(c, res)
+            t = coq_hist(c, res)
+            if t:
+                coq_terms.append(t)
+                coq_idx.append(i)
+            else:
+                fails.append(("hist-shape", "natural parameters of a history stage have an unexpected shape"))
         elif kind == "det":
             fails += oracle_det(c, res)
             for t in coq_det(c, res):
